@@ -10,6 +10,8 @@ flock -x 9
 cd /repo || exit 2
 if [ -n "$(git status --short --untracked-files=no)" ]; then echo "/repo is not clean; refusing"; exit 2; fi
 git apply "$patch" || { echo "PATCH DOES NOT APPLY"; exit 2; }
+# whatever happens (also when this script is killed): /repo gets its files back
+trap 'git -C /repo checkout -- .' EXIT INT TERM HUP
 cd /verif
 [ -f evidence/$id.json ] && cp evidence/$id.json build/seeded-evidence/$id.clean
 VERIF_REPO_LOCKED=1 python3 check.py $id --tier $tier 2>&1 | tail -${4:-8}
